@@ -100,8 +100,8 @@ Proof.
   assert (S1 : In (w, ks1) (pairs I t1)) by (apply in_prod; assumption).
   assert (S2 : In (w, ks2) (pairs I t2)) by (apply in_prod; assumption).
   assert (S3 : In (w, ks3) (pairs I t3)) by (apply in_prod; assumption).
-  pose proof (independent_overlap_one I a Hsat Hn Hrt t1 t2 _ _ tau2 H1 H2 N12 D12 S1 S2 A12 A2) as O12.
-  pose proof (independent_overlap_one I a Hsat Hn Hrt t1 t3 _ _ tau3 H1 H3 N13 D13 S1 S3 A13 A3) as O13.
+  pose proof (independent_overlap_one I a Hsat Hrt t1 t2 _ _ tau2 H1 H2 N12 D12 S1 S2 A12 A2) as O12.
+  pose proof (independent_overlap_one I a Hsat Hrt t1 t3 _ _ tau3 H1 H3 N13 D13 S1 S3 A13 A3) as O13.
   assert (On1 : on a t1 (w, ks1) = 1) by (unfold active_a in A12; lia).
   assert (On2 : on a t2 (w, ks2) = 1) by (unfold active_a in A2; lia).
   assert (On3 : on a t3 (w, ks3) = 1) by (unfold active_a in A3; lia).
@@ -251,5 +251,5 @@ Proof.
   rewrite bridge_start_lb in B. cbn in D, B. rewrite ?sum_list_cons, ?sum_list_nil in D. cbn in D.
   assert (In t2 (i_tasks ex_dead)) by (right; left; reflexivity).
   pose proof (on_binary ex_dead a Hsat t2 ((1, mkWorker 1 [(0, 2)]), (0, mkStrat 1 4 [(0, 1)])) H (or_introl eq_refl)) as O.
-  unfold on, pv in O. cbn in O. lia.
+  unfold on, pv in O. cbn in O. destruct (a (VPlaced 2 1 0)) as [|y|y]; lia.
 Qed.
